@@ -391,6 +391,19 @@ def main():
     except Exception as e:
         status['imp'] = 'failed: %s' % e
     try:
+        import realimp
+        g5 = dict(golden)
+        txt, rst = realimp.lean_file(g5)
+        changed |= write_if_changed(os.path.join(GEN, 'ImpR.lean'), txt)
+        for k_, v_ in rst.items():
+            status['functions'][k_] = dict(v_, lean='ImpR.' + k_, params=[], bools=[], selfattrs=[], absparams=[], nret=1, abscalls=[])
+        if update:
+            for k_, v_ in g5.items():
+                if k_.startswith('impr:'):
+                    golden[k_] = v_
+    except Exception as e:
+        status['impr'] = 'failed: %s' % e
+    try:
         import strtrans
         g4 = dict(golden)
         txt, sst = strtrans.lean_file(g4)
